@@ -64,6 +64,30 @@ func NewSUT(t *gen.Tree) (*SUT, error) {
 	return &SUT{N: n, T: t, Confirmed: map[int]bool{0: true}, Applied: map[int]bool{0: true}, Stats: map[string]int{}}, nil
 }
 
+// Fork opens an independent node on a copy of this SUT's persisted data (caches cold, as after a
+// restart) and wraps it with a copy of the bookkeeping: many executions can start from one
+// prepared situation.
+func (s *SUT) Fork() (*SUT, error) {
+	n, err := s.N.Twin()
+	if err != nil {
+		return nil, err
+	}
+	f := &SUT{N: n, T: s.T, Confirmed: map[int]bool{}, Applied: map[int]bool{}, Stats: map[string]int{}, hn: s.hn,
+		Predicting: s.Predicting, models: map[int]*refmodel.State{}}
+	for k, v := range s.Confirmed {
+		f.Confirmed[k] = v
+	}
+	for k, v := range s.Applied {
+		f.Applied[k] = v
+	}
+	for k, v := range s.models {
+		f.models[k] = v
+	}
+	f.Arrival = append(f.Arrival, s.Arrival...)
+	f.junk = append(f.junk, s.junk...)
+	return f, nil
+}
+
 // Tip returns the tree index of the state machine's current block (-1 if unknown).
 func (s *SUT) Tip() int {
 	if i, ok := s.T.ByID[string(s.N.StateTip())]; ok {
